@@ -7,7 +7,7 @@ vc = sys.argv[1]
 funcs = sys.argv[2:] or None
 rs, meta = extract.build_unit(repo, vc, os.path.join(os.environ.get('VERIF_OUT', '/verif'), 'build'))
 for w in meta['warnings']: print('warning:', w)
-run = vrun.run_verus(rs, funcs=funcs if funcs and len(funcs)==1 else None, module=meta.get('module'))
+run = vrun.run_verus(rs, funcs=funcs if funcs and len(funcs)==1 else None, module=meta.get('module'), rlimit=60, threads=16)
 res = vrun.parse(run, meta)
 gen = open(rs).read().split('\n')
 def fn_at(line):
